@@ -187,7 +187,7 @@ func VH_active() {
 	resetEnv()
 	u := mkUpstream(0, 0, 1)
 	h := l4proxy.VerifNewHandler(l4proxy.UpstreamPool{u}, &l4proxy.FirstSelection{}, 0, 0, nil, 0)
-	before := l4proxy.VerifPeerState{Unhealthy: int32(vapi.Int("unhealthy", 0, 1))}
+	before := l4proxy.VerifPeerState{Unhealthy: int32(vapi.Int("unhealthy", 0, 1)), NumConns: int32(vapi.Int("numconns", 0, 2))}
 	l4proxy.VerifSetPeer(u, 0, before)
 	refused := vapi.Bool("refused")
 	dialFail = func(int) bool { return refused }
@@ -275,6 +275,8 @@ func VH_retry() {
 		vapi.Assert(err == nil, "proxying failed after a successful dial")
 		vapi.Assert(ups[0].closed >= 1, "upstream connection not closed")
 	}
+	// whatever happened, nothing is open any more: no connection may stay counted
+	vapi.Assert(l4proxy.VerifPeerState_(u, 0).NumConns == 0, "a connection is still counted on the upstream after Handle returned")
 }
 
 // ---- C03: relaying ----------------------------------------------------------------------------------------------
